@@ -23,7 +23,7 @@ WALL = {"quick": 900, "thorough": 7200}
 REQUIRED = {"strands_completed": 1500, "circular": 300, "json_circular": 100, "labelled_edges_copied": 300,
             "involution_checks": 1000, "unknown_rejected": 100, "single_nucleotide": 20, "end_to_end": 20,
             "end_to_end_via_seq_list": 5, "json_keys_not_from_zero": 50, "json_keys_not_consecutive": 50,
-            "json_resids_not_from_one": 50, "json_nodes_listed_out_of_order": 50, "json_keys_not_in_residue_order": 50, "sequences_wrapped_over_lines": 200, "headers_naming_dna_and_protein": 100, "txt_strands": 100, "fasta_with_further_records": 30,
+            "json_resids_not_from_one": 50, "json_nodes_listed_out_of_order": 50, "json_keys_not_in_residue_order": 50, "sequences_wrapped_over_lines": 200, "headers_naming_dna_and_protein": 100, "txt_strands": 100, "fasta_with_further_records": 30, "end_to_end_unknown_residue": 3,
             "terminal_bases": 8}
 COMP = {"DA": "DT", "DT": "DA", "DG": "DC", "DC": "DG"}
 SWAP = {"5": "3", "3": "5", "": ""}
@@ -247,6 +247,29 @@ def run_e2e(cid, rng, workdir, res):
     (Path(workdir) / "dna.ff").write_text("\n".join(ff) + "\n")
     n = rng.randint(3, 25)
     seq = "".join(rng.choice("ACGT") for _ in range(n))
+    if rng.random() < 0.2:
+        # a strand that contains a residue without base-pair partner (a linker block of the user's own): the program has
+        # to refuse it, and no topology may be written
+        ff_bad = ff[:-0 or None] + ["[ moleculetype ]", "LNK 1", "[ atoms ]", "1 P1 1 LNK BB 1 0.0 72.0"]
+        ff_bad = [ln.replace('resname "', 'resname "LNK|') for ln in ff_bad]
+        (Path(workdir) / "dna.ff").write_text("\n".join(ff_bad) + "\n")
+        nm = [ONE[c] for c in seq]
+        nm[0] += "5"
+        nm[-1] += "3"
+        k_ = rng.randrange(0, n - 1)          # anywhere but the 3' end
+        nm[k_] = "LNK"
+        out_bad = Path(workdir) / "bad.itp"
+        run = pipeline.run_gen_params(name="DS", outpath=out_bad, inpath=[Path(workdir) / "dna.ff"], lib=None,
+                                      seq=["%s:1" % x for x in nm], seq_file=None, dsdna=True)
+        res["sig"] = sig_of([seq, k_, "e2e-bad"])
+        res["sample"] = {"sequence": seq, "unknown_residue_at": k_ + 1, "stratum": "gen_params -dsdna, strand with a linker"}
+        res["nontrivial"] = True
+        bump(res, "end_to_end_unknown_residue")
+        if run["status"] == "ok" or out_bad.exists():
+            violation(res, "unknown-name-accepted:end-to-end", "gen_params -dsdna on a strand whose residue %d is 'LNK' %s" %
+                      (k_ + 1, "returned normally" if run["status"] == "ok" else "raised but left a file"),
+                      {"sequence": seq, "position": k_ + 1})
+        return res
     via_seq = rng.random() < 0.4
     circ = rng.random() < 0.4 and not via_seq
     out = Path(workdir) / "ds.itp"
